@@ -290,7 +290,7 @@ fn parse_cli_args() -> clap::ArgMatches {
                     "Number of worker threads to spawn. Defaults to number of detected CPU cores.",
                 )
                 .value_name("THREADS")
-                .value_parser(clap::value_parser!(u32)),
+                .value_parser(clap::value_parser!(u32).range(1..)),
         )
         .arg(
             clap::Arg::new("print")
